@@ -256,41 +256,13 @@ class Sim:
             self._handoff(a)
 
     def _exec_with_op_fault(self, i, of):
-        """leaf_exc: a user-defined leaf term raises on its k-th get_sql during this op;
-        recursion: the interpreter's recursion limit is lowered for this op only."""
-        env = self.env
-        if of["kind"] == "leaf_exc":
-            from .lang import ARMED_LEAF_STATES
-            st = env.leaf_state
-            st.armed, st.calls, st.fire_at = True, 0, of["at"]
-            ARMED_LEAF_STATES.append(st)
-            try:
-                v = exec_op(env, self.program[i])
-            finally:
-                fired = st.calls >= st.fire_at
-                st.armed = False
-                ARMED_LEAF_STATES.remove(st)
-            if fired and isinstance(v, Failed) and v.exc == "RuntimeError":
-                v.injected = True
-                self.fired["leaf_exc"] = self.fired.get("leaf_exc", 0) + 1
-            return v
-        if of["kind"] == "recursion":
-            depth = 0
-            f = sys._getframe()
-            while f is not None:
-                depth += 1
-                f = f.f_back
-            old = sys.getrecursionlimit()
-            sys.setrecursionlimit(depth + of["limit"])
-            try:
-                v = exec_op(env, self.program[i])
-            finally:
-                sys.setrecursionlimit(old)
-            if isinstance(v, Failed) and v.exc == "RecursionError":
-                v.injected = True
-                self.fired["recursion"] = self.fired.get("recursion", 0) + 1
-            return v
-        raise HarnessError("unknown op fault " + of["kind"])
+        """leaf_exc: a user-defined leaf term raises on its k-th get_sql during this op's library call;
+        recursion: the interpreter's recursion limit is lowered for this op's library call only."""
+        v = exec_op(self.env, self.program[i], op_fault=of)
+        k = getattr(self.env, "last_op_fault", None)
+        if k:
+            self.fired[k] = self.fired.get(k, 0) + 1
+        return v
 
     def run(self, wall_timeout=60.0):
         threads = []
